@@ -302,7 +302,7 @@ def r10_5(ctx, fx):
     fn = ctx.fn(fx, A + "AddressStore::addresses", "R10.5")
     cl = ctx.fn(fx, A + "AddressStore::addresses::{closure#0}", "R10.5")
     if fn is not None and cl is not None:
-        srt = fn.calls(r"sort_by_key$")
+        srt = fn.calls(r"sort(_unstable)?_by(_cached)?_key$")
         tk = fn.calls(r"Iterator::take$")
         ctx.anchor("R10.5", "addresses: sort_by_key + take", min(len(srt), len(tk)), 1, cfg=fx.cfg)
         aggs = [s for n, s in cl.assigns() if s["rv"]["r"] == "agg" and s["lhs"] == [0]]
